@@ -56,7 +56,7 @@ Proof.
   rewrite Edd in Est.
   assert (Es : c_in_state c = REQ_BODY_CHUNKED_DATA) by apply (ci_state _ _ _ _ _ _ _ _ _ H).
   assert (Ef : rq_state_fn cb g (c_in_state c) c = REQ_BODY_CHUNKED_DATA_fn cb c) by (rewrite Es; reflexivity).
-  assert (Rk : dv_rok c) by (eapply dv_cin_rok; [exact H|discriminate]).
+  assert (Rk : dv_rok c) by (eapply dv_cin_rok; [exact H|apply dv_neqN]).
   assert (Fin : forall r c1, rq_state_fn cb g (c_in_state c) c = (r, c1) -> dv_rok c1 -> dv_rb c' = dv_rb c1).
   { intros r c1 E1 R1. destruct Hit as [Ei|(rc & Ei)].
     - apply (dv_iter_after_inr cb g Hcb c r c1 c' E1 Ei R1).
@@ -98,6 +98,7 @@ Variable hlog : option bytes -> tx -> bytes -> bytes -> Prop.
 Notation sg_cin := (sg_cinw sg_w0).
 Notation sg_mid := (sg_midw sg_w0).
 Notation RB := H_REQUEST_BODY_DATA.
+Notation RC := H_REQUEST_COMPLETE.
 
 Let tailw := sg_fwire tflat ++ [CR; LF].
 Let Etot := sg_cE ks0.
@@ -128,7 +129,7 @@ Proof. exact (sg_trailer_start g m u pr fs ks0 last tr tcuts Wtr Htlen Htfo Hfit
 
 (* at the end: the transaction of PSegChunkedRun, and the delivery *)
 Definition dv_cfin (L : list event) (txs : list (option tx)) : Prop :=
-  sg_cfin g m u pr fs ks0 last tr txs /\ dv_delivered RB 0 true D L.
+  sg_cfin g m u pr fs ks0 last tr txs /\ dv_delivered_c RB RC 0 true D L.
 (* between two calls inside the coded body (en decoded bytes delivered so far, in the data events L), or inside the trailer block *)
 Definition dv_cext (L : list event) (c : connp) (rw : bytes) : Prop :=
   (exists fl r en mn, crem_ok r /\
@@ -139,7 +140,7 @@ Definition dv_cext (L : list event) (c : connp) (rw : bytes) : Prop :=
      dv_pieces RB 0 L D).
 Let post := dv_post m u pr bwt hlog dv_cfin dv_cext.
 
-Lemma dv_neq7 : Some H_REQUEST_TRAILER_DATA <> Some H_REQUEST_BODY_DATA. Proof. discriminate. Qed.
+Lemma dv_neq7 : forall h, Some H_REQUEST_TRAILER_DATA = Some h -> dv_rq_hook h = false. Proof. intros h E. inversion E. reflexivity. Qed.
 
 (* ---- a call that is (or arrives) in the trailer block ---- *)
 Lemma dv_call_trailer c d rd fl p hdr t rw' F L0 :
@@ -184,9 +185,9 @@ Proof.
     rewrite (sg_rq_loop_inr cb g _ _ _ E6).
     rewrite (sg_rq_loop_inl cb g _ _ _ (sg_pass_idle_end cb g c6 d _ _ _ _ H6)).
     eexists _, _. split; [reflexivity|]. right. split; [exact Erw|].
-    change (dv_rb (c6 <| c_in_status := c_HTP_STREAM_DATA |>)) with (dv_rb c6). rewrite V6, Ev3. cbn [w_done sg_w0 length rev]. rewrite app_assoc. split.
+    change (dv_rb (c6 <| c_in_status := c_HTP_STREAM_DATA |>)) with (dv_rb c6). rewrite V6, Ev3. cbn [w_done sg_w0 length rev]. rewrite <- (app_assoc (rev (dv_rb c))). cbn [app]. rewrite app_assoc. split.
     + exists fl. change (c_txs (c6 <| c_in_status := c_HTP_STREAM_DATA |>)) with (c_txs c6). rewrite (il_txs _ _ _ _ _ _ _ H6). reflexivity.
-    + apply dv_pieces_marker. exact HL.
+    + apply dv_pieces_done. exact HL.
 Qed.
 
 (* ---- the rest of a call from a point inside the coded body ---- *)
@@ -420,12 +421,12 @@ End ChunkedRunE.
 
 (* ================= the theorems on the wire grammar, with a chunk-coded body ================= *)
 (* header fields AND trailer fields folded in any way, any segmentation *)
-Theorem dv_request_chunked_delivery : forall cb g r (cuts : list (list bytes)) (ks : list bd_chunk) (last : bytes) (tr : list wr_field)
+Theorem dv_request_chunked_delivery_c : forall cb g r (cuts : list (list bytes)) (ks : list bd_chunk) (last : bytes) (tr : list wr_field)
     (tcuts : list (list bytes)) (chunks : list bytes),
   wr_all_ok cb -> g_allow_space_uri g = false -> sg_chunked_ok g r = true -> sg_cuts_ok r cuts = true -> sg_fold_fits g r cuts = true ->
   sg_cfbody_ok g ks last tr tcuts = true ->
   Forall (fun x => x <> []) chunks -> concat chunks = sg_fold_wire r cuts ++ sg_cfbody_wire ks last tr tcuts ->
-  dv_delivered H_REQUEST_BODY_DATA 0 true (bd_chunks_data ks) (dv_sel H_REQUEST_BODY_DATA (dv_log cb g (OpOpen :: map OpReqData chunks))).
+  dv_delivered_c H_REQUEST_BODY_DATA H_REQUEST_COMPLETE 0 true (bd_chunks_data ks) (dv_selp dv_rq_hook (dv_log cb g (OpOpen :: map OpReqData chunks))).
 Proof.
   intros cb g [m u p fs] cuts ks last tr tcuts chunks Hcb Hsp Wr Hcuts Hf Hbody Hall Hc.
   unfold sg_chunked_ok in Wr. cbn [wq_method wq_uri wq_protocol wq_fields] in Wr. cbv zeta in Wr.
@@ -456,6 +457,24 @@ Proof.
               (dv_fcall_hdrs cb g Hcb m u p bwt body Tend _ _ (dv_ctail cb g Hcb Hsp m u p fs ks last tr Wl Wc Hco Hks Hlast Hfitb tcuts Wtr Htlen Htfo Hfitt bwt (sg_fhlog g Tend body)))
               chunks Hall Hc') as [_ Dl].
   exact Dl.
+Qed.
+
+(* the REQUEST_BODY_DATA events alone; the marker precedes the one REQUEST_COMPLETE event *)
+Theorem dv_request_chunked_delivery : forall cb g r (cuts : list (list bytes)) (ks : list bd_chunk) (last : bytes) (tr : list wr_field)
+    (tcuts : list (list bytes)) (chunks : list bytes),
+  wr_all_ok cb -> g_allow_space_uri g = false -> sg_chunked_ok g r = true -> sg_cuts_ok r cuts = true -> sg_fold_fits g r cuts = true ->
+  sg_cfbody_ok g ks last tr tcuts = true ->
+  Forall (fun x => x <> []) chunks -> concat chunks = sg_fold_wire r cuts ++ sg_cfbody_wire ks last tr tcuts ->
+  let log := dv_log cb g (OpOpen :: map OpReqData chunks) in
+  dv_delivered H_REQUEST_BODY_DATA 0 true (bd_chunks_data ks) (dv_sel H_REQUEST_BODY_DATA log) /\
+  dv_sel H_REQUEST_COMPLETE log = [dv_done H_REQUEST_COMPLETE 0] /\
+  bd_marker_ok H_REQUEST_BODY_DATA H_REQUEST_COMPLETE (dv_selp dv_rq_hook log) false = true.
+Proof.
+  intros cb g r cuts ks last tr tcuts chunks Hcb Hsp Wr C1 F1 B1 A1 E1 log.
+  pose proof (dv_request_chunked_delivery_c cb g r cuts ks last tr tcuts chunks Hcb Hsp Wr C1 F1 B1 A1 E1) as Dl. fold log in Dl.
+  destruct (dv_delivered_c_sel H_REQUEST_BODY_DATA H_REQUEST_COMPLETE 0 true _ _ ltac:(discriminate) Dl) as (D1 & D2 & D3).
+  rewrite (dv_sel_selp dv_rq_hook H_REQUEST_BODY_DATA log eq_refl) in D1. rewrite (dv_sel_selp dv_rq_hook H_REQUEST_COMPLETE log eq_refl) in D2.
+  split; [exact D1|]. split; [exact D2|exact D3].
 Qed.
 
 (* delivery and accounting together (the lengths: PSegChunkedThm.sg_request_chunked_counted) *)
@@ -511,12 +530,14 @@ Example dv_ex_chunked_cuts :
 Proof. split; [vm_compute; reflexivity|]. split; vm_compute; reflexivity. Qed.
 
 (* ================= THEOREMS FOR RE-EXPORT (Properties_C06.v), request direction, chunk-coded body =================
-   dv_request_chunked_delivery           dv_delivered H_REQUEST_BODY_DATA 0 true (bd_chunks_data ks) (REQUEST_BODY_DATA events of the whole run)
+   dv_request_chunked_delivery_c         dv_delivered_c: the REQUEST_BODY_DATA and REQUEST_COMPLETE events of the whole run = data* ++ [marker; REQUEST_COMPLETE]
+   dv_request_chunked_delivery           dv_delivered H_REQUEST_BODY_DATA 0 true (bd_chunks_data ks) (REQUEST_BODY_DATA events of the whole run), one REQUEST_COMPLETE, marker before it
    dv_request_chunked_delivery_counted   + txs = [Some t], request_entity_len = |data|, request_message_len = |chunks| + |last-chunk line|, COMPLETE
    dv_request_chunked_delivery_unfolded  header and trailer fields one line each
    premises (those of PSegChunkedRun.sg_request_chunked_fold_trailer_chunking): wr_all_ok cb, g_allow_space_uri g = false, sg_chunked_ok g r = true,
      sg_cuts_ok r cuts = true, sg_fold_fits g r cuts = true, sg_cfbody_ok g ks last tr tcuts = true, Forall (fun x => x <> []) chunks,
      concat chunks = sg_fold_wire r cuts ++ sg_cfbody_wire ks last tr tcuts *)
+Print Assumptions dv_request_chunked_delivery_c.
 Print Assumptions dv_request_chunked_delivery.
 Print Assumptions dv_request_chunked_delivery_counted.
 Print Assumptions dv_request_chunked_delivery_unfolded.
